@@ -280,6 +280,9 @@ func verifDecState(d *fecDecoder) VerifFECDecState {
 
 func (v *VerifFECDecoder) State() VerifFECDecState { return verifDecState(v.d) }
 
+// SetNewest positions a fresh decoder as if it had followed the stream up to the given shard id.
+func (v *VerifFECDecoder) SetNewest(id uint32) { v.d.newestShardId = id }
+
 // VerifPoolPutBuf recycles a buffer through the package pool (as kcpInput does for recovered shards).
 func VerifPoolPutBuf(b []byte) error { return defaultBufferPool.Put(b) }
 
